@@ -1040,6 +1040,14 @@ func (g *schemaGenerator) generateEnumType(t *schemas.Type, scope nameScope) (co
 			return nil, fmt.Errorf("invalid type %q: %w", t.Type[0], err)
 		}
 
+		for _, v := range t.Enum {
+			switch v.(type) {
+			case nil, string, float64, bool:
+			default:
+				return nil, fmt.Errorf("%w %v", errEnumNonPrimitiveVal, v)
+			}
+		}
+
 		// Enforce integer type for enum values.
 		if t.Type[0] == "integer" {
 			for i, v := range t.Enum {
@@ -1083,12 +1091,11 @@ func (g *schemaGenerator) generateEnumType(t *schemas.Type, scope nameScope) (co
 				}
 			}
 
+			// Keep scanning after a type mismatch: later values must be primitive too.
 			if primitiveType == "" {
 				primitiveType = valueType
 			} else if primitiveType != valueType {
 				primitiveType = interfaceTypeName
-
-				break
 			}
 		}
 
